@@ -204,7 +204,10 @@ PROPS["C19"] = {
 PROPS["C18"] = {
     "exhaustive": [
         {"spec": "KeyspaceTheorems.tla", "cfg": "KeyspaceTheorems_quick.cfg"},
-        {"spec": "KeyspaceTheorems.tla", "cfg": "KeyspaceTheorems_thorough.cfg", "tier": "thorough", "timeout": 3000},
+        # 3-bit space in two parts (the theorems about tries do not mention the peer set and vice versa; the cross
+        # product of 677 tries x 15 targets x 256 peer sets does not finish): every (trie, target), every peer set
+        {"spec": "KeyspaceTheorems.tla", "cfg": "KeyspaceTheorems_thorough_trie.cfg", "tier": "thorough", "timeout": 1200},
+        {"spec": "KeyspaceTheorems.tla", "cfg": "KeyspaceTheorems_thorough_peers.cfg", "tier": "thorough", "timeout": 1200},
         {"spec": "KeyspaceTheorems.tla", "cfg": "KeyspaceTheorems_neg.cfg", "expect": "violation"},
     ],
     "drivers": [{"test": "TestVerifKeyspace", "pkg": "./provider/internal/keyspace", "overlay": "keyspace", "cwd": "/repo",
